@@ -60,9 +60,8 @@ Ltac sec :=
 
 Lemma ex_wf : wf_lconfig ex_env ex_lc.
 Proof.
-  split; [|split].
+  split.
   - repeat constructor.
-  - repeat constructor; cbn; lia.
   - reflexivity.
 Qed.
 
